@@ -21,7 +21,9 @@ broadcast use {axiom_biguint_ext, axiom_bigint_ext};
 
 //@ include units/C04/constant.rs
 
+proof fn vf_canary_il() ensures false {}
 } // mod il
+proof fn vf_canary_root() ensures false {}
 
 } // verus!
 
